@@ -113,3 +113,33 @@ def me_ident(tc, ca, text):
 
 def df17(aa, me, ca=5, df=17):
     return seal(bytes([(df << 3) | ca]) + aa.to_bytes(3, "big") + me)
+
+
+def memcheck(rep, prop, binary, mode, data: bytes, timeout=3600):
+    """the same driver run under valgrind memcheck (the binary links C code: bundled sqlite, ring); an error report is a
+    violation, a missing valgrind or a watchdog is only recorded"""
+    import shutil
+    if not shutil.which("valgrind"):
+        rep.cls("memcheck:valgrind-not-installed(skipped)")
+        return
+    env = dict(os.environ)
+    env["JET1090_VERIF"] = mode
+    try:
+        p = subprocess.run(["valgrind", "-q", "--error-exitcode=9", "--num-callers=16", binary], input=data, env=env,
+                           stdout=subprocess.PIPE, stderr=subprocess.PIPE, timeout=timeout)
+    except subprocess.TimeoutExpired:
+        rep.cls("memcheck:watchdog(not judged)")
+        return
+    err = p.stderr.decode(errors="replace")
+    reports = [l for l in err.splitlines() if l.startswith("==") and ("Invalid" in l or "uninitialised" in l or "definitely lost" in l
+                                                                     or "Mismatched" in l or "overlap" in l)]
+    rep.evaluations += 1
+    rep.cls("memcheck:driver-lines", len([l for l in p.stdout.splitlines() if l.strip()]))
+    if p.returncode == 9 or reports:
+        first = reports[0] if reports else err.strip().splitlines()[0] if err.strip() else "error"
+        where = next((l for l in err.splitlines() if "jet1090" in l or "rs1090" in l), "")
+        import re
+        sig = re.sub(r"==\d+==\s*", "", first)[:60] + ":" + re.sub(r"==\d+==\s*|0x[0-9A-Fa-f]+", "", where)[:80]
+        rep.violation(f"{prop}:memcheck:{sig}", f"valgrind memcheck reports on the {mode} driver: {err[-1200:]}", {"mode": "memcheck", "driver": mode})
+    else:
+        rep.cls("memcheck:clean")
